@@ -1,75 +1,141 @@
 (* C17 — the access path does not change what is read.
    A source is a byte string behind a stream interface with three capabilities (seekable() answers true, it has readinto,
-   it has a seekable method at all — a stream that offers ONLY read() has not); `read_via c e k f`
-   is laspy.open(source, read_evlrs = e) followed by read() (k = None) or by a chunk iterator of k points and then read()
-   (k = Some k); it returns the result (header fields, VLRs, EVLRs, records — or the error) and the list of the methods
-   called on the source. `read_mmap` is laspy.mmap, `mmap_set` an assignment through the mapped record array
-   (Model/Access.v). `laid_out f rh`: f is a string of bytes whose header parses to rh, uncompressed, all announced points
-   present; `evlrs_adjacent rh`: the first EVLR starts right after the last point; `needs_evlrs rh`: a 1.4 header that
-   announces EVLRs; `can_answer c rh`: the source has a seekable method, or the file has no EVLR to fetch (the library then
-   never asks); `open_via c e f` is laspy.open alone: the header shown before anything is read. *)
+   it has a seekable method at all — a stream that offers ONLY read() has not, and then counts as not seekable:
+   `can_seek c`). `read_via c e steps f` is laspy.open(source, read_evlrs = e), then the consumption steps (SChunks k: a
+   chunk iterator of k points, SPoints n: read_points(n)), then read(); it returns the result (header fields, VLRs, EVLRs,
+   records — or the error) and the list of the methods called on the source. `consume_via` is the same WITHOUT read(): the
+   header the reader shows and the records handed out (no step: the reader is only inspected); `open_via` is laspy.open
+   alone. `read_mmap` is laspy.mmap, `mmap_set` an assignment of one element through the mapped record array,
+   `mmap_set_dim` the assignment of a whole dimension (Model/Access.v). `laid_out f rh`: f is a string of bytes whose header
+   parses to rh, uncompressed, all announced points present; `truncated f rh n`: cut after n < point_count whole records;
+   `evlrs_adjacent rh`: the first EVLR starts right after the last point; `needs_evlrs rh`: a 1.4 header that announces EVLRs. *)
 From Coq Require Import String.
 From Coq Require Import ZArith List Bool.
-From LasV Require Import Lib.Base Lib.Layout Gen.GenFormatBits Gen.GenAccess Model.Las Model.LasSpec Model.Access Proofs.AccessProofs.
+From LasV Require Import Lib.Base Lib.Layout Gen.GenFormatBits Gen.GenAccess Model.Las Model.LasSpec Model.Access
+  Proofs.AccessProofs Proofs.AccessSimProofs.
 Import ListNotations.
 Open Scope list_scope.
 Open Scope Z_scope.
 
 (* whatever the capabilities of the source (path / bytes / BytesIO / buffered file = seekable with readinto; a stream
-   that offers only read(); a stream without readinto), whether EVLRs are loaded at opening or deferred to read(), whole
-   or chunked reading: the same header, VLRs, EVLRs and records (or the same error). Files with zero points included. *)
-Theorem C17_independent : forall f rh c c' e e' k k', laid_out f rh -> evlrs_adjacent rh ->
-  can_answer c rh -> can_answer c' rh ->
-  fst (read_via c e k f) = fst (read_via c' e' k' f).
+   whose seekable() answers False; a stream that offers only read(); a stream without readinto), whether EVLRs are loaded
+   at opening or deferred to read(), however the reader is consumed before read() (not at all, chunk iterators,
+   read_points): the same header, VLRs, EVLRs and records (or the same error). Files with zero points included. *)
+Theorem C17_independent : forall f rh c c' e e' steps steps', laid_out f rh -> evlrs_adjacent rh ->
+  fst (read_via c e steps f) = fst (read_via c' e' steps' f).
 Proof. exact access_path_independent. Qed.
 Print Assumptions C17_independent.
 
 (* ... and that common result is what the file model's reader (the one of the round-trip property C01) reads. A source
    that can seek does not need the EVLRs to be adjacent: with a gap after the last point the seek-based path is used,
    also when the loading was deferred to read(). *)
-Theorem C17_reads_the_file : forall c e k f rh, laid_out f rh -> (c_seekable c = true \/ evlrs_adjacent rh) -> can_answer c rh ->
-  fst (read_via c e k f) = read_file f.
+Theorem C17_reads_the_file : forall c e steps f rh, laid_out f rh -> (can_seek c = true \/ evlrs_adjacent rh) ->
+  fst (read_via c e steps f) = read_file f.
 Proof. exact read_via_spec. Qed.
 Print Assumptions C17_reads_the_file.
 
 (* zero points: the header and the EVLRs come through every path, no record *)
-Theorem C17_zero_points : forall f rh c e k, laid_out f rh -> evlrs_adjacent rh -> can_answer c rh -> h_count rh <= 0 ->
-  fst (read_via c e k f) = match evlrs_of f rh with Ok ev => Ok (mkLF (with_evlrs rh ev) []) | Err er => Err er end.
+Theorem C17_zero_points : forall f rh c e steps, laid_out f rh -> evlrs_adjacent rh -> h_count rh <= 0 ->
+  fst (read_via c e steps f) = match evlrs_of f rh with Ok ev => Ok (mkLF (with_evlrs rh ev) []) | Err er => Err er end.
 Proof. exact zero_points_read. Qed.
 Print Assumptions C17_zero_points.
 
-(* the header shown right after laspy.open (nothing read yet) is the file's through every source: EVLRs loaded exactly when
-   that was asked for and the source can seek — or there is none to load: then it is the empty list, never None, whatever
-   the source —, left to read() (None) otherwise. Two sources that agree on seekable() (or any two, for a file without
-   EVLRs) show the same header. *)
-Theorem C17_open_stage : forall f rh c e, laid_out f rh -> can_answer c rh ->
-  fst (open_via c e f) = if loads_at_open c e rh
-                         then match evlrs_of f rh with Ok ev => Ok (with_evlrs rh ev) | Err er => Err er end
-                         else Ok rh.
+(* the header shown right after laspy.open (nothing read yet) is the file's through every source (opened_header): EVLRs
+   loaded exactly when that was asked for and the source can seek — or there is none to load: then it is the empty list,
+   never None, whatever the source —, left to read() (None) otherwise. Two sources that agree on whether they can seek (or
+   any two, for a file without EVLRs) show the same header. *)
+Theorem C17_open_stage : forall f rh c e, laid_out f rh -> fst (open_via c e f) = opened_header c e f rh.
 Proof. exact open_stage. Qed.
 Print Assumptions C17_open_stage.
 
-Theorem C17_open_stage_independent : forall f rh c c' e, laid_out f rh -> can_answer c rh -> can_answer c' rh ->
-  (needs_evlrs rh = false \/ c_seekable c = c_seekable c') ->
+Theorem C17_open_stage_independent : forall f rh c c' e, laid_out f rh ->
+  (needs_evlrs rh = false \/ can_seek c = can_seek c') ->
   fst (open_via c e f) = fst (open_via c' e f).
 Proof. exact open_stage_independent. Qed.
 Print Assumptions C17_open_stage_independent.
 
-(* the one case can_answer excludes, as the code is: a source without a seekable method and a file with EVLRs — the
-   library has to ask, at opening or in read(), and the AttributeError (EOther) is the outcome by every route *)
-Theorem C17_bare_source_needs_seekable : forall c e chunk f rh, laid_out f rh -> c_has_seekable c = false -> needs_evlrs rh = true ->
-  fst (read_via c e chunk f) = Err EOther.
-Proof. exact bare_source_needs_seekable. Qed.
-Print Assumptions C17_bare_source_needs_seekable.
+(* a reader that is consumed WITHOUT read() — only inspected, iterated by chunks, read_points — still shows the header it
+   showed when it was opened, and has handed out the first m records of the file, m depending on the steps only: the same
+   for every source and every read_evlrs *)
+Theorem C17_before_read : forall f rh steps, laid_out f rh ->
+  exists m R, 0 <= m <= Z.max 0 (h_count rh)
+    /\ read_file f = match evlrs_of f rh with Ok ev => Ok (mkLF (with_evlrs rh ev) R) | Err er => Err er end
+    /\ forall c e, fst (consume_via c e steps f)
+                   = match opened_header c e f rh with Ok rh1 => Ok (mkLF rh1 (firstn (Z.to_nat m) R)) | Err er => Err er end.
+Proof. exact before_read. Qed.
+Print Assumptions C17_before_read.
 
-(* a source that says it cannot seek (or cannot even say) is never asked to seek or tell — for every byte string, well formed or not *)
-Theorem C17_no_seek : forall c e chunk src, c_seekable c = false \/ c_has_seekable c = false ->
-  no_seek_tell (snd (read_via c e chunk src)) = true.
+(* read_evlrs when the caller does not give it (laspy.open(source), laspy.read(source), LasReader(source)) is the constant
+   found in the source, the same for every kind of source: EVLRs are loaded at opening *)
+Theorem C17_default_arguments : default_read_evlrs = true
+  /\ forall c steps f, read_via c default_read_evlrs steps f = read_via c true steps f
+                    /\ consume_via c default_read_evlrs steps f = consume_via c true steps f.
+Proof. split; [reflexivity|intros; split; reflexivity]. Qed.
+Print Assumptions C17_default_arguments.
+
+(* a source that offers read() and NOTHING else (no seekable, no readinto, no seek, no tell) reads the same header, VLRs,
+   EVLRs and records as every other source, and read() is all that was ever called on it, also when the reader is not read
+   to the end ... *)
+Theorem C17_bare_source_reads_the_file : forall c e steps f rh, laid_out f rh -> evlrs_adjacent rh ->
+  c_has_seekable c = false -> c_readinto c = false ->
+  fst (read_via c e steps f) = read_file f /\ only_reads (snd (read_via c e steps f)) = true
+  /\ only_reads (snd (consume_via c e steps f)) = true.
+Proof. exact bare_source_reads_the_file. Qed.
+Print Assumptions C17_bare_source_reads_the_file.
+
+(* ... and on EVERY byte string, well formed or not, it is used exactly like a source whose seekable() answers False:
+   same outcome, same calls in the same order (those of the other source minus its seekable() queries) *)
+Theorem C17_bare_source_like_nonseekable : forall c e steps src, c_has_seekable c = false -> c_readinto c = false ->
+  let c' := mkCaps false false true in
+  fst (read_via c e steps src) = fst (read_via c' e steps src)
+  /\ snd (read_via c e steps src) = filter not_query (snd (read_via c' e steps src))
+  /\ fst (consume_via c e steps src) = fst (consume_via c' e steps src)
+  /\ snd (consume_via c e steps src) = filter not_query (snd (consume_via c' e steps src)).
+Proof. exact bare_like_nonseekable. Qed.
+Print Assumptions C17_bare_source_like_nonseekable.
+
+(* more generally two sources that agree on whether they can seek are used in the same way on every byte string: same
+   outcome, same calls up to the optional methods (norm: seekable() queries dropped, readinto(n bytes) = read(n)) *)
+Theorem C17_same_use : forall c c', can_seek c = can_seek c' -> forall e steps src,
+  fst (read_via c e steps src) = fst (read_via c' e steps src)
+  /\ norm (snd (read_via c e steps src)) = norm (snd (read_via c' e steps src))
+  /\ fst (consume_via c e steps src) = fst (consume_via c' e steps src)
+  /\ norm (snd (consume_via c e steps src)) = norm (snd (consume_via c' e steps src)).
+Proof. exact same_use. Qed.
+Print Assumptions C17_same_use.
+
+(* a source is only ever asked what it offers: read always, readinto / seekable when it has them, seek and tell only when
+   it said it can seek — for every byte string, well formed or not, however the reader is consumed *)
+Theorem C17_only_what_is_offered : forall c e steps src,
+  only_offered c (snd (read_via c e steps src)) = true /\ only_offered c (snd (consume_via c e steps src)) = true.
+Proof. intros; split; [apply only_what_is_offered|apply only_what_is_offered_consume]. Qed.
+Print Assumptions C17_only_what_is_offered.
+
+(* in particular a source that does not say it can seek is never asked to seek or tell *)
+Theorem C17_no_seek : forall c e steps src, can_seek c = false ->
+  no_seek_tell (snd (read_via c e steps src)) = true /\ no_seek_tell (snd (consume_via c e steps src)) = true.
 Proof. exact no_seek_when_not_seekable. Qed.
 Print Assumptions C17_no_seek.
 
+(* a malformed but readable file — cut inside its point block after a whole number of records — reads the same through
+   every source, however it is consumed: the header, the stored records, and the EVLRs found where the header says (a
+   source that cannot seek looks at the end of the data: the same place when that position is not inside the file) *)
+Theorem C17_truncated_point_block : forall c e steps f rh stored, truncated f rh stored ->
+  (can_seek c = true \/ (h_minor rh >= 4 -> h_nev rh > 0 -> len f <= h_evstart rh)) ->
+  fst (read_via c e steps f)
+  = match evlrs_of f rh with Ok ev => Ok (mkLF (with_evlrs rh ev) (stored_recs f rh)) | Err er => Err er end
+  /\ len (stored_recs f rh) = stored.
+Proof. exact truncated_read. Qed.
+Print Assumptions C17_truncated_point_block.
+
+Theorem C17_truncated_independent : forall c c' e e' steps steps' f rh stored, truncated f rh stored ->
+  (h_minor rh >= 4 -> h_nev rh > 0 -> len f <= h_evstart rh) ->
+  fst (read_via c e steps f) = fst (read_via c' e' steps' f).
+Proof. exact truncated_independent. Qed.
+Print Assumptions C17_truncated_independent.
+
 (* the memory map shows the same thing as the streams: header count records (trailing EVLR bytes are not records), EVLRs loaded *)
-Theorem C17_mmap_same : forall f rh c e k, laid_out f rh -> evlrs_adjacent rh -> can_answer c rh -> read_mmap f = fst (read_via c e k f).
+Theorem C17_mmap_same : forall f rh c e steps, laid_out f rh -> evlrs_adjacent rh -> read_mmap f = fst (read_via c e steps f).
 Proof. exact mmap_same_as_streams. Qed.
 Print Assumptions C17_mmap_same.
 
@@ -98,6 +164,26 @@ Theorem C17_mmap_locality : forall f rh i o bs, laid_out f rh ->
 Proof. exact mmap_set_local. Qed.
 Print Assumptions C17_mmap_locality.
 
+(* the assignment of a WHOLE dimension through the map (las.<dim> = values, las[<dim>] = values, las.x = values,
+   las.<dim>[:] = values: one value of w bytes per record): the file keeps its length, changes nowhere outside the bytes
+   of that dimension, is still laid out, and a subsequent read shows the same header/VLRs/EVLRs and every record with its
+   value stored — the edit reaches the file, not a private copy *)
+Theorem C17_mmap_whole_dimension : forall f rh o w vals, laid_out f rh ->
+  len vals = h_count rh -> 0 <= o -> o + w <= rh_psize rh ->
+  Forall (fun bs => len bs = w /\ bytes_ok bs = true) vals ->
+  (h_minor rh >= 4 -> h_nev rh > 0 -> rh_offset rh + h_count rh * rh_psize rh <= h_evstart rh) ->
+  let f' := mmap_set_dim f (rh_offset rh) (rh_psize rh) o vals in
+  len f' = len f /\ laid_out f' rh
+  /\ (forall j, (forall t, 0 <= t < h_count rh ->
+                   (j < Z.to_nat (rh_offset rh + t * rh_psize rh + o) \/ Z.to_nat (rh_offset rh + t * rh_psize rh + o + w) <= j)%nat) ->
+                 nth j f' 0 = nth j f 0)
+  /\ (forall lf, read_file f = Ok lf ->
+        exists lf', read_file f' = Ok lf' /\ lf_h lf' = lf_h lf /\ length (lf_points lf') = length (lf_points lf)
+          /\ (forall k, (length vals <= k)%nat -> nth k (lf_points lf') [] = nth k (lf_points lf) [])
+          /\ (forall k, (k < length vals)%nat -> nth k (lf_points lf') [] = write_at (nth k (lf_points lf) []) o (nth k vals []))).
+Proof. exact mmap_set_dim_local. Qed.
+Print Assumptions C17_mmap_whole_dimension.
+
 (* the hypotheses are those of every file the writer model produces (C01/C03: file_of), for every header, VLRs, records, EVLRs *)
 Theorem C17_written_files_are_laid_out : forall ap h vl fmt recs evl f h',
   file_of ap h vl fmt recs evl = Ok f -> final_hdr ap h vl fmt recs evl = Ok h' ->
@@ -111,32 +197,46 @@ Print Assumptions C17_written_files_are_laid_out.
 
 (* the shapes of the source the hand-written model follows, as found by the translator in the current source:
    two reads in _prefetch_header_data, the signature, six reads per EVLR, the three-way source normalisation of open_las,
-   and the statement shapes of LasHeader.read_evlrs / read_from, LasReader.read, the point readers and LasMMAP.__init__ *)
+   the default of read_evlrs, and the statement shapes of LasHeader.read_evlrs / read_from (the capability asked through
+   getattr with a default), LasReader.read / read_points (the source reached through read_n_points only), the point
+   readers, LasMMAP.__init__ and PackedPointRecord.__setitem__ (in place; the array replaced only when it has to grow) *)
 Theorem C17_source_shapes :
   prefetch_reads = 2 /\ file_signature = LASF /\ vlr_reads_per_record = len (evlr_head ++ evlr_tail) + 1
-  /\ map fst source_normalisation = ["path"; "bytes"; "other"]%string
+  /\ map fst source_normalisation = ["path"; "bytes"; "other"]%string /\ open_read_evlrs_default = true
   /\ gen_hdr_read_evlrs_shape = true /\ gen_read_from_shape = true /\ gen_reader_read_shape = true
-  /\ gen_point_readers_shape = true /\ gen_mmap_shape = true.
+  /\ gen_read_points_shape = true /\ gen_point_readers_shape = true /\ gen_mmap_shape = true /\ gen_record_assign_shape = true.
 Proof. repeat split. Qed.
 Print Assumptions C17_source_shapes.
 
-(* a file written by laspy (1.4, format 6, two points, one EVLR), read through a read-only stream in chunks of one point
-   with deferred EVLRs: same result as the reader of the file model, two records, one EVLR, and exactly these calls; what
-   laspy.open alone shows through a non-seekable and a seekable source; a source without seekable() fails after the points *)
+(* a file written by laspy (1.4, format 6, two points, one EVLR), read through a stream whose seekable() answers False in
+   chunks of one point with deferred EVLRs: same result as the reader of the file model, two records, one EVLR, and exactly
+   these calls; through a stream that offers only read(): the same result and the same calls without the query; what a
+   seekable source is asked; what laspy.open alone shows through a non-seekable and a seekable source; a reader that is
+   only iterated (read_points(1) then a chunk iterator) has handed out both records and still shows no EVLRs; the file cut
+   after its first record reads one record through a bare source; a whole-dimension assignment through the map *)
 Example C17_nonvacuous :
   laid_out sample_file sample_header /\ evlrs_adjacent sample_header
-  /\ fst (read_via (mkCaps false false true) false (Some 1) sample_file) = read_file sample_file
+  /\ fst (read_via (mkCaps false false true) false [SChunks 1] sample_file) = read_file sample_file
   /\ (match read_file sample_file with
       | Ok lf => (length (lf_points lf) = 2%nat /\ option_map (@length vlr) (rh_evlrs (lf_h lf)) = Some 1%nat)
       | Err _ => False end)
-  /\ snd (read_via (mkCaps false false true) false (Some 1) sample_file)
+  /\ snd (read_via (mkCaps false false true) false [SChunks 1] sample_file)
      = [ORead 227; ORead 148; ORead 30; ORead 30; OSeekable; ORead 2; ORead 16; ORead 2; ORead 8; ORead 32; ORead 3]
-  /\ snd (read_via (mkCaps true true true) true None sample_file)
+  /\ read_via (mkCaps false false false) false [SChunks 1] sample_file
+     = (read_file sample_file, [ORead 227; ORead 148; ORead 30; ORead 30; ORead 2; ORead 16; ORead 2; ORead 8; ORead 32; ORead 3])
+  /\ snd (read_via (mkCaps true true true) true [] sample_file)
      = [ORead 227; ORead 148; OSeekable; OTell; OSeek 435; ORead 2; ORead 16; ORead 2; ORead 8; ORead 32; ORead 3; OSeek 375; OReadInto 60]
-  /\ open_via (mkCaps false false true) true sample_file = (Ok sample_header, [ORead 227; ORead 148; OSeekable; OSeekable])
+  /\ open_via (mkCaps false false true) true sample_file = (Ok sample_header, [ORead 227; ORead 148; OSeekable])
+  /\ open_via (mkCaps false false false) true sample_file = (Ok sample_header, [ORead 227; ORead 148])
   /\ option_map (@length vlr) (match fst (open_via (mkCaps true true true) true sample_file) with Ok rh => rh_evlrs rh | Err _ => None end) = Some 1%nat
-  /\ read_via (mkCaps false false false) false (Some 1) sample_file = (Err EOther, [ORead 227; ORead 148; ORead 30; ORead 30]).
+  /\ (match fst (consume_via (mkCaps false true false) default_read_evlrs [SPoints 1; SChunks 5] sample_file) with
+      | Ok lf => length (lf_points lf) = 2%nat /\ rh_evlrs (lf_h lf) = None | Err _ => False end)
+  /\ truncated (firstn 405 sample_file) sample_header 1
+  /\ (match fst (read_via (mkCaps false false false) true [SChunks 2] (firstn 405 sample_file)) with
+      | Ok lf => length (lf_points lf) = 1%nat | Err _ => False end)
+  /\ (match read_file (mmap_set_dim sample_file 375 30 12 [[1; 2]; [3; 4]]) with
+      | Ok lf => map (fun r => firstn 2 (skipn 12 r)) (lf_points lf) = [[1; 2]; [3; 4]] | Err _ => False end).
 Proof.
   split; [exact (proj1 sample_laid_out)|]. split; [exact (proj2 sample_laid_out)|].
-  vm_compute. repeat split.
+  vm_compute. repeat split; intro; discriminate.
 Qed.
